@@ -409,7 +409,7 @@ theorem presealMelmint_winv {c0 : CoinMap} {H : Nat} {N : NetID} (env : Env) (st
     obtain ⟨s3, h3, h⟩ := Outcome.bind_eq_ok h
     have i0 : WInv c0 H N (createBuiltins st) := ⟨hi.height, hi.network, hi.coins⟩
     have i3 := processWithdrawals_winv env _ _ (processDeposits_winv env _ _ (processSwaps_winv _ _ i0 h1) h2) h3
-    obtain ⟨sm, sm2, _, rfl, _⟩ := pegging_shape s3 st' h
+    obtain ⟨sm, sm2, _, rfl, _⟩ := pegging_shape (createBuiltins s3) st' h
     exact ⟨i3.height, i3.network, i3.coins⟩
 
 theorem tip909_winv {c0 : CoinMap} {H : Nat} {N : NetID} (st st' : State)
@@ -495,9 +495,10 @@ theorem sealState_ok {env : Env} {s : State} {a : Option ProposerAction} {ss : S
       cases h
       exact h3
 
-/-- `presealMelmint`, taken apart -/
+/-- `presealMelmint`, taken apart: the builtin pools, the settlement, the builtin pools again (since the `fix:` for
+    finding F24), the peg adjustment -/
 theorem presealMelmint_ok {env : Env} {s s' : State} (h : presealMelmint env s = .ok s') :
-    ∃ s3, settle env (createBuiltins s) = .ok s3 ∧ processPegging s3 = .ok s' := by
+    ∃ s3, settle env (createBuiltins s) = .ok s3 ∧ processPegging (createBuiltins s3) = .ok s' := by
   unfold presealMelmint at h
   simp only at h
   split at h
@@ -534,20 +535,29 @@ theorem subsidyPart_congr {a b : State} (hh : b.height = a.height) (d : Denom) :
   unfold subsidyPart
   rw [hh]
 
+/-- what the SECOND `create_builtins` of a seal creates of `d` (since the `fix:` for finding F24 the builtin pools are
+    made again after the withdrawal phase): the default reserves of each builtin pool that the settlement of this
+    block left absent or without liquidity -/
+def recreatedPart (env : Env) (s : State) (d : Denom) : Nat := builtinsCreated (settled env s) d
+
 theorem seal_mid {env : Env} {s s1 s2 : State} (h1 : presealMelmint env s = .ok s1)
     (h2 : (if s1.tip909 then applyTip909 s1 else .ok s1) = .ok s2) (hp : SealPre s)
     (hl : legacyDeposit s = false) (d : Denom) (hd : ∀ k : PoolKey, d ≠ liqTokenDenom env k) :
-    supply s2 d ≤ supply (createBuiltins s) d + midPart s d := by
+    supply s2 d ≤ supply (createBuiltins s) d + recreatedPart env s d + midPart s d := by
   obtain ⟨s3, hset, hpeg⟩ := presealMelmint_ok h1
   have hp0 := createBuiltins_sealPre s hp
   have g := settle_good env _ s3 hset hp0 hl
   have le1 := C01_settlement env _ s3 hset hp0 hl d hd
-  have le2 := pegging_supply s3 s1 hpeg g.poolKeys d
+  have le1' := C01_builtins_sharp s3 d g.poolKeys
+  have hk3 := createBuiltins_poolKeys s3 g.poolKeys
+  have le2 := pegging_supply (createBuiltins s3) s1 hpeg hk3 d
   have hh3 : s3.height = s.height := g.height
   have hn3 : s3.network = s.network := g.network
-  rw [pegPart_congr hh3 hn3] at le2
-  obtain ⟨sm, sm2, _, e1, _⟩ := pegging_shape s3 s1 hpeg
-  have hk1 : (s1.pools.map (·.1)).Nodup := by rw [e1]; exact pools_nodup_set g.poolKeys _ _
+  rw [pegPart_congr (a := s) (b := createBuiltins s3) hh3 hn3] at le2
+  obtain ⟨sm, sm2, _, e1, _⟩ := pegging_shape (createBuiltins s3) s1 hpeg
+  have hk1 : (s1.pools.map (·.1)).Nodup := by rw [e1]; exact pools_nodup_set hk3 _ _
+  unfold recreatedPart
+  rw [settled_eq hset]
   have hh1 : s1.height = s.height := by rw [e1]; exact hh3
   have hn1 : s1.network = s.network := by rw [e1]; exact hn3
   have ht : s1.tip909 = s.tip909 := tipCondition_congr hh1 hn1 _
@@ -577,12 +587,12 @@ theorem seal_action {env : Env} {s s2 : State} {a : Option ProposerAction} {ss :
       rw [hi.height]; exact fresh_of_winv hi hfresh
     exact C01_reward env _ ss.st act h3 hi.coins.nodup hf d
 
-/-- sealing in full, sharp form: builtin pools, peg adjustment, subsidy -/
+/-- sealing in full, sharp form: builtin pools (before the settlement, and again after it), peg adjustment, subsidy -/
 theorem seal_sharp (env : Env) (s : State) (a : Option ProposerAction) (ss : Sealed)
     (h : sealState env s a = .ok ss) (hp : SealPre s) (hl : legacyDeposit s = false)
     (hfresh : s.coins.getCoin { txhash := env.rewardId s.height, index := 0 } = none)
     (d : Denom) (hd : ∀ k : PoolKey, d ≠ liqTokenDenom env k) :
-    supply ss.st d ≤ supply (createBuiltins s) d + midPart s d := by
+    supply ss.st d ≤ supply (createBuiltins s) d + recreatedPart env s d + midPart s d := by
   obtain ⟨s1, s2, h1, h2, h3⟩ := sealState_ok h
   have hi := seal_winv hp.coinKeys h1 h2
   rw [seal_action hi hfresh h3 d]
